@@ -80,6 +80,41 @@ func runLaws[T any](t *testing.T, in inst[T]) {
 			}
 		})
 	}
+	if !in.noAsso {
+		// The same VALUE as two operands of one expression - the same pointer, the same slice, the same map,
+		// not an equal copy: Combine(a, a) is an ordinary use (doubling), and a triple in which a value recurs
+		// is an ordinary triple.
+		kit.Check(t, in.name+"/same-operand", "values a, b from the instance generator; a itself (not a copy) is passed as both operands of Combine(a, a) - compared with the reference semantics where the name promises one - and recurs in the triples (a,a,b), (b,a,a), (a,b,a), for which associativity is demanded as for any triple; non-trivial iff a is not observably the identity; distinct by printed pair", kit.Opt{Weight: 0.5}, func(rt *rapid.T, rec *kit.Rec) {
+			a, b := in.gen.Draw(rt, "a"), in.gen.Draw(rt, "b")
+			nt := true
+			if in.empty != nil {
+				nt = !in.eq(a, in.empty())
+			}
+			sa, sb := in.show(a), in.show(b)
+			rec.Case(nt, sa+"|"+sb)
+			sig := "C11|" + in.name + "|same-operand"
+			var aa T
+			rec.Guard(rt, sig, func() { aa = in.sg.Combine(a, a) })
+			if in.ref != nil {
+				if want := in.ref(a, a); !in.eq(aa, want) {
+					rec.Failf(rt, sig, "Combine(a, a) = %s with the same value a = %s as both operands, want %s", in.show(aa), sa, in.show(want))
+				}
+			}
+			for i, tr := range [][3]T{{a, a, b}, {b, a, a}, {a, b, a}} {
+				var l, r T
+				rec.Guard(rt, sig, func() {
+					l = in.sg.Combine(in.sg.Combine(tr[0], tr[1]), tr[2])
+					r = in.sg.Combine(tr[0], in.sg.Combine(tr[1], tr[2]))
+				})
+				if !in.eq(l, r) {
+					rec.Failf(rt, sig, "triple %d of (a,a,b),(b,a,a),(a,b,a) with a=%s b=%s: (x+y)+z = %s but x+(y+z) = %s", i, sa, sb, in.show(l), in.show(r))
+				}
+			}
+			if in.show(a) != sa || in.show(b) != sb {
+				rec.Failf(rt, sig, "operands changed: a %s -> %s, b %s -> %s", sa, in.show(a), sb, in.show(b))
+			}
+		})
+	}
 	if in.empty != nil {
 		kit.Check(t, in.name+"/identity", "value a from the instance generator; non-trivial iff a is not itself the identity; distinct by printed value", kit.Opt{}, func(rt *rapid.T, rec *kit.Rec) {
 			a := in.gen.Draw(rt, "a")
